@@ -12,6 +12,7 @@
 -/
 import Dirk.Lemmas.ImportProofs
 import Dirk.Lemmas.PropInv
+import Dirk.Lemmas.ImportCmd
 
 namespace Dirk
 
@@ -85,5 +86,17 @@ theorem C10_parse_error_no_change (gvr : String) (db : Db) (f : IFile)
 theorem C10_legacy_counterexample :
     legacyTake (some { slot := 10, src := 5, tgt := 6 }) { slot := 20, src := -1, tgt := -1 } = false := by
   decide
+
+/-- the range hypothesis of the theorems above holds for EVERY store: whatever decodes (current or legacy format) holds
+    int64 values -/
+theorem C10_range_any (db : Db) : RangeOK db := rangeOK_any db
+
+/-- **C10 inside an instance's lifetime.** An import command run between two runs of the instance (`Op.importCmd`: any
+    file, any flag; the store becomes the command's result when it succeeds and is untouched when it refuses) keeps both
+    slashing-protection invariants — everything released so far stays covered by the store — with NO hypothesis on the
+    file. This is what lets `C01`, `C02` and `C14` range over histories that contain import commands. -/
+theorem C10_import_command_keeps_invariants {s : Inst} (ha : AttInv s) (hp : PropInv s) (gvr : String) (f : IFile) :
+    AttInv (step s (.importCmd gvr f)).1 ∧ PropInv (step s (.importCmd gvr f)).1 :=
+  ⟨step_importCmd_attInv ha gvr f, step_importCmd_propInv hp gvr f⟩
 
 end Dirk
